@@ -9,6 +9,7 @@ import (
 	"go/types"
 	"regexp"
 	"sort"
+	"strconv"
 	"strings"
 
 	"golang.org/x/tools/go/ssa"
@@ -25,6 +26,10 @@ type binder struct {
 	classOf map[string]string
 	// showBodies: render calls of module helpers as name(args)=>{what they return, in terms of the arguments}
 	showBodies bool
+	// catForm: string concatenations and fmt.Sprintf with a format of literal text and %s only are both rendered as
+	// cat[part, part, ...] (flattened, adjacent literals merged): how a string is put together is not what a rule asks
+	catForm bool
+	catRaw  map[string][]string // rendered cat[...] -> its unmerged parts (for splicing into an enclosing one)
 	// useSite: when set, fieldRef of a local struct variable considers whether the field was assigned before this point
 	useSite ssa.Instruction
 	// carrier struct types whose fields are looked through (field-based): values stored into T.f
@@ -83,7 +88,12 @@ func (b *binder) bindD(v ssa.Value, d int) string {
 		return "…"
 	}
 	b.busy[v] = true
-	s := b.bind1(v, d)
+	s := ""
+	if parts, ok := b.catPartsTop(v, d); ok {
+		s = "cat[" + strings.Join(parts, ", ") + "]"
+	} else {
+		s = b.bind1(v, d)
+	}
 	delete(b.busy, v)
 	b.memo[v] = s
 	return s
@@ -928,7 +938,13 @@ var classTypeRewrite func(t types.Type, s string) string
 // withArgs: a binder for the body of cal in which cal's parameters stand for the given (already bound) arguments.
 func (b *binder) withArgs(cal *ssa.Function, args []string) *binder {
 	sub := &binder{c: b.c, memo: map[ssa.Value]string{}, busy: map[ssa.Value]bool{}, carriers: b.carriers, fieldSrc: b.fieldSrc, classOf: b.classOf,
-		subst: map[*ssa.Parameter]string{}, inlineD: b.inlineD + 1}
+		subst: map[*ssa.Parameter]string{}, inlineD: b.inlineD + 1, catForm: b.catForm}
+	if b.catForm {
+		if b.catRaw == nil {
+			b.catRaw = map[string][]string{}
+		}
+		sub.catRaw = b.catRaw
+	}
 	for i, p := range cal.Params {
 		if i < len(args) {
 			sub.subst[p] = args[i]
@@ -1011,4 +1027,162 @@ func (b *binder) bindInContextT(fn *ssa.Function, v ssa.Value, within map[*ssa.F
 		as = append(as, b.withArgs(fn, args).bind(v))
 	}
 	return alts(as)
+}
+
+// catPartsTop: v is a string built by + or by an all-%s Sprintf (and catForm is on): its flattened parts.
+func (b *binder) catPartsTop(v ssa.Value, d int) ([]string, bool) {
+	if !b.catForm {
+		return nil, false
+	}
+	switch x := v.(type) {
+	case *ssa.BinOp:
+		if bt, ok := x.Type().Underlying().(*types.Basic); !ok || bt.Info()&types.IsString == 0 || x.Op != token.ADD {
+			return nil, false
+		}
+	case *ssa.Call:
+		if calleeName(x) != "fmt.Sprintf" {
+			return nil, false
+		}
+	default:
+		return nil, false
+	}
+	parts, ok := b.catParts(v, d)
+	if !ok {
+		return nil, false
+	}
+	// merge adjacent literals
+	var out []string
+	lit := ""
+	hasLit := false
+	flush := func() {
+		if hasLit && lit != "" {
+			out = append(out, "const:"+strconv.Quote(lit))
+		}
+		lit, hasLit = "", false
+	}
+	for _, p := range parts {
+		if strings.HasPrefix(p, "\x00lit:") {
+			lit += p[len("\x00lit:"):]
+			hasLit = true
+			continue
+		}
+		flush()
+		out = append(out, p)
+	}
+	flush()
+	if b.catRaw == nil {
+		b.catRaw = map[string][]string{}
+	}
+	b.catRaw["cat["+strings.Join(out, ", ")+"]"] = parts
+	return out, true
+}
+
+// spliceCat: a bound sub-expression that is itself a cat[...] contributes its parts.
+func (b *binder) spliceCat(sub string) []string {
+	if raw, ok := b.catRaw[sub]; ok {
+		return raw
+	}
+	return []string{sub}
+}
+
+func (b *binder) catParts(v ssa.Value, d int) ([]string, bool) {
+	switch x := v.(type) {
+	case *ssa.Const:
+		if s, ok := constString(x); ok {
+			return []string{"\x00lit:" + s}, true
+		}
+	case *ssa.BinOp:
+		if bt, ok := x.Type().Underlying().(*types.Basic); ok && bt.Info()&types.IsString != 0 && x.Op == token.ADD {
+			l, ok1 := b.catParts(x.X, d+1)
+			if !ok1 {
+				l = b.spliceCat(b.bindD(x.X, d+1))
+			}
+			r, ok2 := b.catParts(x.Y, d+1)
+			if !ok2 {
+				r = b.spliceCat(b.bindD(x.Y, d+1))
+			}
+			return append(l, r...), true
+		}
+	case *ssa.Call:
+		if calleeName(x) == "fmt.Sprintf" && len(x.Call.Args) == 2 {
+			format, ok := constString(x.Call.Args[0])
+			if !ok {
+				return nil, false
+			}
+			elems := variadicElems(x.Call.Args[1])
+			pieces := strings.Split(format, "%s")
+			if len(pieces) != len(elems)+1 {
+				return nil, false
+			}
+			for _, pc := range pieces {
+				if strings.Contains(pc, "%") {
+					return nil, false
+				}
+			}
+			var out []string
+			for i, pc := range pieces {
+				if pc != "" {
+					out = append(out, "\x00lit:"+pc)
+				}
+				if i < len(elems) {
+					ev := elems[i]
+					if mi, isMI := ev.(*ssa.MakeInterface); isMI {
+						ev = mi.X
+					}
+					if bt, isB := ev.Type().Underlying().(*types.Basic); !isB || bt.Info()&types.IsString == 0 {
+						return nil, false
+					}
+					sub, ok := b.catParts(ev, d+1)
+					if !ok {
+						sub = b.spliceCat(b.bindD(ev, d+1))
+					}
+					out = append(out, sub...)
+				}
+			}
+			return out, true
+		}
+	}
+	return nil, false
+}
+
+// variadicElems: the values of the array literal behind a variadic argument `arr[:]` (nil if not of that form or an
+// element is stored more than once).
+func variadicElems(v ssa.Value) []ssa.Value {
+	sl, ok := v.(*ssa.Slice)
+	if !ok {
+		return nil
+	}
+	al := isLocalArrayAlloc(sl.X)
+	if al == nil {
+		return nil
+	}
+	at, ok := deref(al.Type()).Underlying().(*types.Array)
+	if !ok {
+		return nil
+	}
+	out := make([]ssa.Value, at.Len())
+	for _, r := range *al.Referrers() {
+		ia, ok := r.(*ssa.IndexAddr)
+		if !ok {
+			continue
+		}
+		k, isC := constInt(ia.Index)
+		if !isC || k < 0 || k >= at.Len() {
+			return nil
+		}
+		for _, r2 := range *ia.Referrers() {
+			if st, ok := r2.(*ssa.Store); ok && st.Addr == ssa.Value(ia) {
+				if out[k] != nil {
+					return nil
+				}
+				out[k] = st.Val
+			}
+		}
+	}
+	for _, e := range out {
+		if e == nil {
+			return nil
+		}
+	}
+	return out
 }
